@@ -13,6 +13,8 @@ import warnings
 
 import numpy as np
 
+from harness.core import exc_class
+
 # finding F3 (a child listed twice under one parent was accepted), repaired in the package: the entry
 # of known_findings.json is kind=fixed and suppresses nothing, so an implementation that accepts such a
 # tree again is reported under this class
@@ -714,6 +716,192 @@ def move_one_child(data, rng):
     return out
 
 
+# ------------------------------------------------------------------ the caller goes on editing its own dict
+ALIAS = 'C10-tree-aliases-caller-data'
+
+
+def snapshot(tt):
+    """The answers of every query of a tree as plain, un-aliased JSON values (orders kept)."""
+    h = list(tt.hierarchy)
+    ap = list(tt.all_parents)
+    al = tt.as_leaves
+    snap = {
+        'hierarchy': h,
+        'top': list(tt.children(None, None)),
+        'nodes_at_level': {lv: list(tt.nodes_at_level(lv)) for lv in h},
+        'children': {lv: {x: list(tt.children(lv, x)) for x in tt.nodes_at_level(lv)} for lv in h},
+        'parents': {lv: {x: [[k, v] for k, v in tt.parents(lv, x).items()] for x in tt.nodes_at_level(lv)} for lv in h},
+        'as_leaves': {lv: {x: list(al[lv][x]) for x in al[lv]} for lv in al},
+        'all_leaves': list(tt.all_leaves),
+        'rows_for_leaf': {x: [int(r) for r in tt.rows_for_leaf(x)] for x in tt.all_leaves},
+        'all_parents': [None if p_ is None else list(p_) for p_ in ap],
+        'leaves_to_compare': [[list(g) for g in tt.leaves_to_compare(p_)] for p_ in ap],
+        'to_str': tt.to_str(),
+        'to_str(drop_cells)': tt.to_str(drop_cells=True),
+    }
+    return json.loads(json.dumps(snap))
+
+
+def edit_in_place(data, rng):
+    """One edit of the caller's dict, made IN PLACE on its nested objects, that turns a valid taxonomy into
+    another valid taxonomy.  Returns a description, or None when no edit of the drawn kind applies."""
+    h = data['hierarchy']
+    n = len(h)
+    kind = rng.choice(['move', 'move', 'rename_node', 'rename_node', 'delete_leaf', 'delete_leaf', 'add_row',
+                       'rename_level', 'new_leaf'])
+    if kind == 'move':
+        cands = [k for k in range(n - 1) if len(data[h[k]]) >= 2 and any(len(v) >= 2 for v in data[h[k]].values())]
+        if not cands:
+            return None
+        k = rng.choice(cands)
+        src = rng.choice([p_ for p_, v in data[h[k]].items() if len(v) >= 2])
+        dst = rng.choice([p_ for p_ in data[h[k]] if p_ != src])
+        c = data[h[k]][src].pop(rng.randrange(len(data[h[k]][src])))
+        data[h[k]][dst].append(c)
+        return f'move: {h[k + 1]}:{c} from {h[k]}:{src} to {h[k]}:{dst}'
+    if kind == 'rename_node':
+        k = rng.randrange(n)
+        if not data[h[k]]:
+            return None
+        x = rng.choice(list(data[h[k]]))
+        new = rng.choice(EXTRA_NAMES)
+        if new in all_names(data):
+            return None
+        items = list(data[h[k]].items())
+        data[h[k]].clear()
+        for a, b in items:
+            data[h[k]][new if a == x else a] = b
+        if k > 0:
+            for v in data[h[k - 1]].values():
+                if x in v:
+                    v[v.index(x)] = new
+        return f'rename_node: {h[k]}:{x} to {new}'
+    if kind == 'delete_leaf':
+        lf = h[-1]
+        if n == 1:
+            if len(data[lf]) < 2:
+                return None
+            x = rng.choice(list(data[lf]))
+        else:
+            par = [p_ for p_, v in data[h[-2]].items() if len(v) >= 2]
+            if not par:
+                return None
+            p_ = rng.choice(par)
+            x = rng.choice(list(data[h[-2]][p_]))
+            data[h[-2]][p_].remove(x)
+        del data[lf][x]
+        return f'delete_leaf: {x}'
+    if kind == 'add_row':
+        lf = h[-1]
+        if not data[lf]:
+            return None
+        x = rng.choice(list(data[lf]))
+        used = {r for v in data[lf].values() for r in v}
+        r = max(used, default=-1) + 1 + rng.randrange(3)
+        data[lf][x].insert(rng.randrange(len(data[lf][x]) + 1), r)
+        return f'add_row: leaf {x} gets the further row {r}'
+    if kind == 'rename_level':
+        k = rng.randrange(n)
+        old, new = h[k], 'renamed_level'
+        if new in data:
+            return None
+        data[new] = data.pop(old)
+        h[k] = new
+        return f'rename_level: {old} to {new}'
+    # new leaf under an existing parent
+    lf = h[-1]
+    new = rng.choice(EXTRA_NAMES)
+    if new in all_names(data) or (n > 1 and not data[h[-2]]):
+        return None
+    if n > 1:
+        p_ = rng.choice(list(data[h[-2]]))
+        data[h[-2]][p_].append(new)
+    data[lf][new] = []
+    return f'new_leaf: {new}'
+
+
+def snap_diff(a, b):
+    for k in a:
+        if a[k] != b.get(k):
+            if isinstance(a[k], dict) and isinstance(b.get(k), dict):
+                for k2 in a[k]:
+                    if a[k][k2] != b[k].get(k2):
+                        return f'{k}[{k2}]: {json.dumps(a[k][k2])[:150]} -> {json.dumps(b[k].get(k2))[:150]}'
+            return f'{k}: {json.dumps(a[k])[:150]} -> {json.dumps(b.get(k))[:150]}'
+    return None
+
+
+def alias_case(ctx, batch, data, origin, rng):
+    """A tree is built from a caller-owned dict; the caller then edits ITS dict in place into other valid
+    taxonomies (1-3 edits) and after each edit the first tree is queried again: every answer must be the one
+    given before the edit, parent and child queries must stay mutually inverse, and the node table must
+    still be the model's table of the original tree."""
+    original = copy.deepcopy(data)
+    work = copy.deepcopy(data)
+    tt, _ = construct(work)
+    if tt is None:
+        return
+    rk = Ranker(original, extra=EXTRA_NAMES)
+    T = enc_tree(original, rk)
+    before = snapshot(tt)
+    edits = []
+    for _ in range(rng.randrange(1, 4)):
+        e = None
+        for _try in range(6):
+            e = edit_in_place(work, rng)
+            if e is not None:
+                break
+        if e is None:
+            break
+        edits.append(e)
+        ctx.dist('in_place_edit', e.split(':')[0])
+        if construct(copy.deepcopy(work))[0] is None:
+            raise AssertionError(f'harness: in-place edit produced an invalid taxonomy: {edits} on {original}')
+        desc = {'class': ALIAS, 'tree': original, 'origin': origin, 'edits_of_the_callers_dict': list(edits),
+                'callers_dict_after_the_edits': copy.deepcopy(work)}
+        try:
+            after = snapshot(tt)
+            diff = snap_diff(before, after) or snap_diff(after, before)
+        except Exception as exc:      # a tree that was accepted can no longer answer
+            diff = f'a query raised {exc_class(exc)}: {str(exc)[:150]}'
+        if diff:
+            try:
+                inv = spec_inverse(tt)
+            except Exception as exc:
+                inv = [('inverse', f'raised {exc_class(exc)}')]
+            ctx.disagreements_checked += 1
+            ctx.violation('TaxonomyTree(data) answers differently after the caller edited its own dict in place '
+                          f'({"; ".join(edits)}): {diff}'
+                          + (f'; parent and child queries are no longer mutually inverse: {inv[0][1]}' if inv else ''),
+                          dict(desc, failed_clauses=['unchanged-answers'] + (['inverse'] if inv else [])))
+            return
+    if not edits:
+        return
+    # same answers as before imply the clauses established by check_tree on this tree; the inverse clause is
+    # nevertheless re-evaluated on the live object after the last edit
+    inv = spec_inverse(tt)
+    if inv:
+        ctx.disagreements_checked += 1
+        ctx.violation(f'parent and child queries are not mutually inverse after the caller edited its dict: {inv[0][1]}',
+                      dict(desc, failed_clauses=['inverse']))
+        return
+    if not edits:
+        return
+    ctx.count(('alias', json.dumps(original), tuple(edits)), nontrivial=True)
+    # correspondence: the table of all child / parent queries asked AFTER the edits = model of the original tree
+    h = tt.hierarchy
+    table = []
+    for li, lv in enumerate(h):
+        row = []
+        for x in tt.nodes_at_level(lv):
+            ch = tt.children(lv, x)
+            ch = [int(r) for r in ch] if li == len(h) - 1 else [rk[c] for c in ch]
+            row.append([rk[x], [0, ch], [0, [[h.index(k), rk[v]] for k, v in tt.parents(lv, x).items()]]])
+        table.append(row)
+    batch.add(1012, T, [0, [[rk[x] for x in tt.children(None, None)], table]],
+              'node_table(after the caller edited its dict)', {'tree': original, 'origin': origin, 'edits': edits})
+
+
 # ------------------------------------------------------------------ malformed stream
 REJECTED = {'orphan_new_node', 'orphan_unlisted', 'dangling_new_name', 'dangling_deleted_node', 'second_parent',
             'shared_row', 'shared_row_same_leaf', 'dup_child', 'dup_child_appended'}
@@ -1016,7 +1204,10 @@ def run(ctx):
     ctx.rule = ('every ordered tree shape with <=4 levels and <=%d leaves (all branchings, single-child chains, '
                 'single-node levels), each in canonical form and in %d shuffled variants (names permuted, dict '
                 'insertion and child-list orders shuffled, 0-2 rows per leaf, no rows at all); %d random trees with '
-                '<=6 levels and <=40 leaves; one-edit mutants of each; label tables. non-trivial = a valid tree with '
+                '<=6 levels and <=40 leaves; one-edit mutants of each; per tree a caller-edits-its-dict history '
+                '(TaxonomyTree(d), then 1-3 in-place edits of d into other valid taxonomies - move a node, rename a node, '
+                'delete / add a leaf, add a row, rename a level - and after each edit all queries of the first tree again); '
+                'label tables. non-trivial = a valid tree with '
                 '>=2 levels and a node with >=2 children (distinct by content), a mutant, or a label table with >=2 '
                 'levels and >=2 cells') % (ctx.n(5, 6), ctx.n(1, 2), ctx.n(150, 5000))
     ctx.assumptions += [
@@ -1048,6 +1239,7 @@ def run(ctx):
                 continue
             if variant == 0 or ctx.tier != 'quick' or si % 3 == 0:
                 malformed_stream(ctx, batch, data, rng, origin)
+            alias_case(ctx, batch, data, origin, rng)
             if variant and (si % ctx.n(4, 2) == 0):
                 label_case(ctx, batch, rng, data, with_h5ad=(si % ctx.n(24, 12) == 0), idx=si)
     ctx.extra['shapes_enumerated'] = n_shapes
@@ -1085,6 +1277,7 @@ def run(ctx):
             continue
         if i % 3 == 0:
             malformed_stream(ctx, batch, data, rng, origin)
+        alias_case(ctx, batch, data, origin, rng)
         if i % 5 == 0:
             label_case(ctx, batch, rng, data, with_h5ad=(i % ctx.n(50, 25) == 0), idx=100000 + i)
     for i in range(ctx.n(200, 4000)):
